@@ -57,6 +57,10 @@ class CopyPropagate_apply_with_status(Contract):
     properties = ['C07']
     may_raise = ['FPySyntaxError']
     native_candidates = 'spec.c07_ref:copyprop_candidates'
+    native_ghosts = 'spec.c07_ref:GHOSTS'
+    native_universe = 'spec.c07_ref:key_universe'
+    native_demo = 'spec.c07_ref:demo'
+    native_stubs = {'fpy2.analysis.define_use:DefineUse.analyze': 'spec.c07_ref:stub_analyze'}
     options = {'local_types': {'prop': 'dict[Key[Definition], Key[Expr]]'}, 'key_attrs': 'spec.c07:KEY_ATTRS'}
     note = ('verified: the loop over def_use.defs (symbolic length) with invariant inv0; reaching definitions are '
             'uninterpreted (spec.c07.reach_use / reach_site)')
